@@ -44,6 +44,13 @@ out.append("Spec's devices resolve to that file with precedence over every other
 out.append('from `refresh` - the reverse of the D1 repair. It is kept as `seeded/C01-3`, because it breaks C01 as well and')
 out.append("C01's check reports it; the C16 check does not see it, as section 4 says it would not.")
 out.append('')
+out.append('Runs in `/repo` itself. Besides the scratch-copy runs above, four seeds were run exactly as the brief prescribes')
+out.append('(`git -C /repo apply seeded/<s>/patch.diff; ./check <id>; git -C /repo checkout -- .`): `C07-3`, `C04-3`, `C16-2` and')
+out.append('`C12-3`. All four exit 1 with a VIOLATION line and `/repo` is clean afterwards; for `C07-3` the solver model')
+out.append('(`name = "0{"`) was replayed against the real `ValidateDeviceName` and confirmed, so its VIOLATION line carries no')
+out.append('`no-failing-input-found` suffix; the other three end in `no-failing-input-found` (quantified goals give no model).')
+out.append('The evidence files were then rewritten by re-running the four checks on the unchanged tree.')
+out.append('')
 out.append('History of misses that led to stronger checks: `C08-annotation-parts` (a mutant that cannot panic because the')
 out.append('name has at least three bytes — an equivalent mutant for C08, replaced); `C16-prio-zero` (the hint spoke about the')
 out.append('local variable, not the argument handed to `newSpec` — the assertion now is on `spec.priority` at the call of')
